@@ -439,7 +439,7 @@ func (r *Rig) Result() *RunResult {
 	res.EonStartHeight = r.EonStart[res.Eon]
 	for _, k := range r.Keypers {
 		k.observe()
-		kr := KeyperResult{Index: k.Index, Address: k.Address, Byzantine: k.Strategy != nil}
+		kr := KeyperResult{Index: k.Index, Address: k.Address, Byzantine: k.Strategy != nil && !k.Strategy.Faithful}
 		if res.EonStarted {
 			var derr error
 			kr.Finished, kr.Success, kr.Error, kr.Result, derr = k.dkgOutcome(res.Eon)
